@@ -696,6 +696,16 @@ func (e *SpecEnv) eval(n ast.Expr) Val {
 }
 
 func (e *SpecEnv) ident(name string) Val {
+	if e.locals == nil && e.fr != nil && e.fr.fn != nil {
+		// a parameter that the function re-assigns: outside old() its name denotes the current value
+		if v, ok := e.st.dbg[name]; ok && isParamName(e.fr.fn, name) {
+			if _, bound := e.names[name]; bound && e.fr.names != nil {
+				if pv, isP := e.fr.names[name]; isP && pv.S == e.names[name].S {
+					return v
+				}
+			}
+		}
+	}
 	if v, ok := e.names[name]; ok {
 		return v
 	}
@@ -1888,7 +1898,11 @@ func (e *SpecEnv) recApply(sf *SpecFunc, args []Val) Val {
 	if rt == mathInt {
 		res = Val{K: KInt, T: types.Typ[types.UntypedInt], S: t}
 	}
-	if x.unfoldDepth[sf.Name] == 0 && !e.st.applied["unfold:"+t] && !strings.Contains(t, "?") {
+	fuel := 1
+	if x.con != nil && x.con.Opts["fuel"] != "" {
+		fmt.Sscan(x.con.Opts["fuel"], &fuel)
+	}
+	if x.unfoldDepth[sf.Name] < fuel && !e.st.applied["unfold:"+t] && !strings.Contains(t, "?") {
 		e.st.applied["unfold:"+t] = true
 		b := evalBody()
 		if b.K == KBool {
@@ -1911,4 +1925,13 @@ func sigTag(sorts []string) string {
 		h = (h ^ '|') * 16777619
 	}
 	return fmt.Sprintf(".s%x", h&0xffff)
+}
+
+func isParamName(fn *ssa.Function, name string) bool {
+	for _, p := range fn.Params {
+		if p.Name() == name {
+			return true
+		}
+	}
+	return false
 }
